@@ -11,18 +11,24 @@ package main
 //                                         ValidationErrorEncoder, ValidateResponse, Validator.Middleware
 
 import (
+	"archive/zip"
 	"bytes"
 	"context"
+	"encoding/base64"
 	"encoding/json"
 	"fmt"
 	"io"
+	"log"
 	"net/http"
 	"net/http/httptest"
 	"net/url"
 	"os"
+	"runtime"
 	"runtime/debug"
 	"sort"
 	"strings"
+	"sync"
+	"time"
 
 	"github.com/getkin/kin-openapi/openapi3"
 	"github.com/getkin/kin-openapi/openapi3filter"
@@ -37,11 +43,12 @@ func init() {
 	hx.Register(&hx.Prop{
 		ID: "C10",
 		Rule: "server: exhaustive patterns (≤4 over {a,/,{,}}) × inputs (≤3 over {a,/,b}) plus URL-shaped pairs; " +
-			"schema: all environments of ≤2 definitions over the fragment leaf/allOf/items/$ref (depth ≤2) × 2 values (4 in thorough), plus random ones; " +
+			"schema: all one-definition environments over the fragment leaf/allOf/items/$ref (depth ≤2), a second exhaustive family with not/anyOf against allOf/items, × 2 values (4 in thorough), plus random environments of ≤3 definitions; " +
 			"traffic: seeded documents assembled from pools of legal-but-unusual features (content-defined parameters and headers, bounds flags without bounds, multipleOf 0, " +
 			"uncompilable-looking patterns, discriminators, deepObject, recursive components, path items without operations, trailing-slash and templated servers) × " +
 			"byte-level requests/responses (any method, verbatim-template and mutated paths, hostile queries, content types and bodies) through both routers, " +
-			"ValidateRequest, ConvertErrors/ValidationErrorEncoder, ValidateResponse, Middleware; non-trivial = the model reports ≥1 feature/branch",
+			"ValidateRequest (every registered body decoder incl. YAML with non-string keys / non-finite floats, zip, csv, multipart with YAML parts; NaN/Inf parameter texts; deepObject array indexes), " +
+			"error text / ConvertErrors / ValidationErrorEncoder+DefaultErrorEncoder, ValidateResponse, Validator.Middleware, ValidationHandler (file-loaded); non-trivial = the model reports ≥1 feature/branch",
 		Exhaustive: true,
 		Gen:        genC10,
 		Run:        runC10,
@@ -53,7 +60,7 @@ func init() {
 		Assumptions: []string{
 			"inputs are well-formed Go values of the API's types (http.NewRequest succeeds); only document content and traffic are hostile",
 			"documents that fail to load or validate are outside the property (observed as invalid-doc, counted, never compared)",
-			"security requirements are not generated (authentication callbacks are user code; C07 owns that part)",
+			"authentication callbacks are user code: only nil, NoopAuthenticationFunc and a function that returns AuthenticationInput.NewError are used",
 			"strings are ASCII",
 		},
 	})
@@ -62,6 +69,15 @@ func init() {
 // ------------------------------------------------------------------ run
 
 func runC10(c hx.Case) any {
+	if os.Getenv("C10_DEBUG") != "" {
+		t0 := time.Now()
+		defer func() {
+			if d := time.Since(t0); d > 500*time.Millisecond || os.Getenv("C10_DEBUG") == "time" {
+				b, _ := json.Marshal(c)
+				fmt.Fprintf(os.Stderr, "C10SLOW %v %s\n", d, b)
+			}
+		}()
+	}
 	switch jstr(c, "op") {
 	case "schema":
 		if c10DefsCyclic(jlist(c["defs"])) {
@@ -71,11 +87,76 @@ func runC10(c hx.Case) any {
 		if doc, ok := c["doc"].(map[string]any); ok && c10DocHasRefCycle(doc) {
 			return hx.RunIsolated("C10", c, 30000)
 		}
+		// a huge bracketed index can make the decoder allocate without bound (F-C10-8): never in this process
+		if rq, ok := c["req"].(map[string]any); ok && c10HugeIndex(jstr(rq, "query")) {
+			return hx.RunIsolated("C10", c, 60000)
+		}
 	}
 	return runC10InProcess(c)
 }
 
+// c10HugeIndex: a '[' (or %5B) followed, after an optional '+', by five or more digits — the same predicate as the
+// driver's hugeIndexQuery
+func c10HugeIndex(q string) bool {
+	q = strings.NewReplacer("%5B", "[", "%5b", "[", "%2B", "+").Replace(q)
+	for i := 0; i < len(q); i++ {
+		if q[i] != '[' {
+			continue
+		}
+		j := i + 1
+		if j < len(q) && q[j] == '+' {
+			j++
+		}
+		n := 0
+		for j < len(q) && q[j] >= '0' && q[j] <= '9' {
+			j++
+			n++
+		}
+		if n >= 5 {
+			return true
+		}
+	}
+	return false
+}
+
+var c10WatchdogOnce sync.Once
+
+// in a child process only: end the process as soon as the heap passes 384 MB, with a first stderr line the parent
+// reports as the crash — so that an unbounded allocation is observed without exhausting the machine
+func c10MemoryWatchdog() {
+	isChild := false
+	for _, a := range os.Args[1:] {
+		if a == "-child" || a == "--child" {
+			isChild = true
+		}
+	}
+	if !isChild {
+		return
+	}
+	c10WatchdogOnce.Do(func() {
+		// with a soft limit the collector keeps the heap near the live data, so that garbage of earlier exchanges
+		// is not mistaken for an unbounded allocation
+		debug.SetMemoryLimit(128 << 20)
+		go func() {
+			var m runtime.MemStats
+			for {
+				time.Sleep(20 * time.Millisecond)
+				runtime.ReadMemStats(&m)
+				if m.HeapAlloc > 384<<20 {
+					fmt.Fprintf(os.Stderr, "fatal error: C10 memory watchdog: heap exceeds 384 MB (%d MB) while one exchange is validated\n", m.HeapAlloc>>20)
+					os.Exit(3)
+				}
+			}
+		}()
+	})
+}
+
+var c10QuietOnce sync.Once
+
 func runC10InProcess(c hx.Case) any {
+	// the middlewares log every rejected request through the standard logger: in a child process those lines would
+	// be taken for the reason of a crash (first line of its stderr)
+	c10QuietOnce.Do(func() { log.SetOutput(io.Discard) })
 	switch jstr(c, "op") {
 	case "server":
 		return c10RunServer(c)
@@ -84,6 +165,7 @@ func runC10InProcess(c hx.Case) any {
 		return c10RunSchema(c)
 	case "traffic":
 		debug.SetMaxStack(32 << 20)
+		c10MemoryWatchdog()
 		return c10RunTraffic(c)
 	}
 	return map[string]any{"kind": "bad-case"}
@@ -127,6 +209,16 @@ func c10SchemaJSON(s map[string]any) map[string]any {
 	if it, ok := s["items"].(map[string]any); ok {
 		out["items"] = c10SchemaJSON(it)
 	}
+	if alts := jlist(s["anyOf"]); len(alts) > 0 {
+		var l []any
+		for _, x := range alts {
+			l = append(l, c10SchemaJSON(x.(map[string]any)))
+		}
+		out["anyOf"] = l
+	}
+	if nt, ok := s["not"].(map[string]any); ok {
+		out["not"] = c10SchemaJSON(nt)
+	}
 	return out
 }
 
@@ -137,11 +229,15 @@ func c10Refs(s map[string]any, acc *[]int) {
 		*acc = append(*acc, n)
 		return
 	}
-	for _, x := range jlist(s["allOf"]) {
-		c10Refs(x.(map[string]any), acc)
+	for _, k := range []string{"allOf", "anyOf"} {
+		for _, x := range jlist(s[k]) {
+			c10Refs(x.(map[string]any), acc)
+		}
 	}
-	if it, ok := s["items"].(map[string]any); ok {
-		c10Refs(it, acc)
+	for _, k := range []string{"items", "not"} {
+		if it, ok := s[k].(map[string]any); ok {
+			c10Refs(it, acc)
+		}
 	}
 }
 
@@ -313,7 +409,7 @@ func (s *c10Stage) guard(stage string, f func()) (ok bool) {
 			site := ""
 			lines := strings.Split(st, "\n")
 			for i, l := range lines {
-				if (strings.Contains(l, "kin-openapi") || strings.Contains(l, "/repo/") || strings.Contains(l, "/tmp/mut/")) && !strings.Contains(l, "kinverif") && strings.HasPrefix(l, "\t") {
+				if (strings.Contains(l, "kin-openapi") || strings.Contains(l, "/repo/") || strings.Contains(l, "/tmp/mut/") || strings.Contains(l, "/tmp/r/")) && !strings.Contains(l, "kinverif") && strings.HasPrefix(l, "\t") {
 					site = strings.TrimSpace(l)
 					if i > 0 {
 						site = strings.TrimSpace(lines[i-1]) + " @ " + site
@@ -324,9 +420,15 @@ func (s *c10Stage) guard(stage string, f func()) (ok bool) {
 			if i := strings.Index(site, " +0x"); i > 0 {
 				site = site[:i]
 			}
-			s.out["panic"] = fmt.Sprint(r)
-			s.out["stage"] = stage
-			s.out["site"] = site
+			// every panic of the exchange is kept (a later stage may fail in another way than an earlier one);
+			// "panic"/"stage"/"site" describe the first
+			l, _ := s.out["panics"].([]any)
+			s.out["panics"] = append(l, map[string]any{"stage": stage, "msg": fmt.Sprint(r), "site": site})
+			if _, dup := s.out["panic"]; !dup {
+				s.out["panic"] = fmt.Sprint(r)
+				s.out["stage"] = stage
+				s.out["site"] = site
+			}
 			ok = false
 		}
 	}()
@@ -337,7 +439,7 @@ func (s *c10Stage) guard(stage string, f func()) (ok bool) {
 func c10Request(rq map[string]any) (*http.Request, error) {
 	rawq := jstr(rq, "query")
 	u := &url.URL{Scheme: jstr(rq, "scheme"), Host: jstr(rq, "host"), Path: jstr(rq, "path"), RawQuery: rawq}
-	req, err := http.NewRequest(jstr(rq, "method"), u.String(), bytes.NewReader([]byte(jstr(rq, "body"))))
+	req, err := http.NewRequest(jstr(rq, "method"), u.String(), bytes.NewReader(c10Body(rq)))
 	if err != nil {
 		return nil, err
 	}
@@ -353,8 +455,83 @@ func c10Request(rq map[string]any) (*http.Request, error) {
 	return req, nil
 }
 
+// c10Body: the bytes of a message body — rendered from the structured YAML tree "ybody" when there is one,
+// decoded from "body_b64" (binary bodies: zip archives), else the text "body"
+func c10Body(m map[string]any) []byte {
+	if y, ok := m["ybody"]; ok {
+		return []byte(c10Yaml(y))
+	}
+	if b, ok := m["body_b64"].(string); ok {
+		if d, err := base64.StdEncoding.DecodeString(b); err == nil {
+			return d
+		}
+	}
+	return []byte(jstr(m, "body"))
+}
+
+// c10Yaml renders a YAML tree in flow style. Nodes: {"s":text} {"i":int} {"f":"nan"|"inf"|"-inf"|"1.5"} {"b":bool}
+// {"n":true} {"l":[node…]} {"m":[[key,value]…]} (scalar keys). Shrunk (malformed) trees render as null.
+func c10Yaml(n any) string {
+	m, _ := n.(map[string]any)
+	if v, ok := m["s"].(string); ok {
+		b, _ := json.Marshal(v)
+		return string(b)
+	}
+	if v, ok := m["i"]; ok {
+		return fmt.Sprint(c10Int(v))
+	}
+	if v, ok := m["f"].(string); ok {
+		switch strings.ToLower(v) {
+		case "nan":
+			return ".nan"
+		case "inf":
+			return ".inf"
+		case "-inf":
+			return "-.inf"
+		}
+		var f float64
+		if _, err := fmt.Sscan(v, &f); err == nil {
+			return v
+		}
+		return "0.5"
+	}
+	if v, ok := m["b"].(bool); ok {
+		return fmt.Sprint(v)
+	}
+	if l, ok := m["l"].([]any); ok {
+		var parts []string
+		for _, x := range l {
+			parts = append(parts, c10Yaml(x))
+		}
+		return "[" + strings.Join(parts, ", ") + "]"
+	}
+	if l, ok := m["m"].([]any); ok {
+		var parts []string
+		for _, kv := range l {
+			if p, ok := kv.([]any); ok && len(p) == 2 {
+				parts = append(parts, c10Yaml(p[0])+": "+c10Yaml(p[1]))
+			}
+		}
+		return "{" + strings.Join(parts, ", ") + "}"
+	}
+	return "null"
+}
+
+var c10ZipOnce sync.Once
+
+func c10Auth(o map[string]any) openapi3filter.AuthenticationFunc {
+	switch jstr(o, "auth") {
+	case "noop":
+		return openapi3filter.NoopAuthenticationFunc
+	case "deny":
+		return func(_ context.Context, in *openapi3filter.AuthenticationInput) error { return in.NewError(fmt.Errorf("denied")) }
+	}
+	return nil
+}
+
 func c10Options(o map[string]any) *openapi3filter.Options {
 	return &openapi3filter.Options{
+		AuthenticationFunc:          c10Auth(o),
 		MultiError:                  jbool(o, "multi"),
 		ExcludeRequestBody:          jbool(o, "exReqBody"),
 		ExcludeRequestQueryParams:   jbool(o, "exQuery"),
@@ -381,6 +558,8 @@ func c10RouteKind(err error) string {
 }
 
 func c10RunTraffic(c hx.Case) any {
+	// the zip decoder is exported but not registered by the library: a user registers it like this
+	c10ZipOnce.Do(func() { openapi3filter.RegisterBodyDecoder("application/zip", openapi3filter.ZipFileBodyDecoder) })
 	out := map[string]any{"kind": "ok"}
 	st := &c10Stage{out: out}
 	docv, _ := c["doc"].(map[string]any)
@@ -405,6 +584,7 @@ func c10RunTraffic(c hx.Case) any {
 		doc = d
 	}) {
 		delete(out, "panic")
+		delete(out, "panics")
 		out["kind"] = "invalid-doc"
 		out["gate_panic"] = true
 		return out
@@ -462,27 +642,32 @@ func c10RunTraffic(c hx.Case) any {
 			return out
 		}
 		if rerr != nil {
-			if !st.guard("convert", func() {
-				n := 0
-				var each func(e error)
-				each = func(e error) {
-					if me, ok := e.(openapi3.MultiError); ok {
-						for _, x := range me {
-							each(x)
-						}
-						return
+			var flat []error
+			var each func(e error)
+			each = func(e error) {
+				if me, ok := e.(openapi3.MultiError); ok {
+					for _, x := range me {
+						each(x)
 					}
-					n++
-					ce := openapi3filter.ConvertErrors(e)
-					_ = ce.Error()
+					return
+				}
+				flat = append(flat, e)
+			}
+			each(rerr)
+			out["conv"] = len(flat)
+			// the error's own text, the converted error and its text, the encoder: one guard each, and the exchange
+			// goes on after a failure here (the validation itself returned normally)
+			st.guard("errtext", func() { _ = rerr.Error() })
+			for _, e := range flat {
+				e := e
+				var ce error
+				if st.guard("convert", func() { ce = openapi3filter.ConvertErrors(e) }) && ce != nil {
+					st.guard("errtext", func() { _ = ce.Error() })
+				}
+				st.guard("encode", func() {
 					w := httptest.NewRecorder()
 					(&openapi3filter.ValidationErrorEncoder{Encoder: openapi3filter.DefaultErrorEncoder}).Encode(context.Background(), e, w)
-				}
-				each(rerr)
-				_ = rerr.Error()
-				out["conv"] = n
-			}) {
-				return out
+				})
 			}
 		}
 		h := http.Header{}
@@ -495,18 +680,21 @@ func c10RunTraffic(c hx.Case) any {
 			h.Set("Content-Type", ct)
 		}
 		status := c10Int(rs["status"])
+		var perr error
 		if !st.guard("response", func() {
 			rin := &openapi3filter.ResponseValidationInput{RequestValidationInput: in, Status: status, Header: h,
-				Body: io.NopCloser(strings.NewReader(jstr(rs, "body"))), Options: opts}
-			if err := openapi3filter.ValidateResponse(context.Background(), rin); err != nil {
+				Body: io.NopCloser(bytes.NewReader(c10Body(rs))), Options: opts}
+			if perr = openapi3filter.ValidateResponse(context.Background(), rin); perr != nil {
 				out["resp"] = "err"
-				_ = err.Error()
-				_ = openapi3filter.ConvertErrors(err)
 			} else {
 				out["resp"] = "ok"
 			}
 		}) {
 			return out
+		}
+		if perr != nil {
+			st.guard("resp-errtext", func() { _ = perr.Error() })
+			st.guard("resp-convert", func() { _ = openapi3filter.ConvertErrors(perr).Error() })
 		}
 	}
 	// the same exchange through the middleware (fresh request: ValidateRequest may have rewritten the first)
@@ -532,11 +720,41 @@ func c10RunTraffic(c hx.Case) any {
 					if status >= 100 && status <= 999 {
 						w.WriteHeader(status)
 					}
-					io.WriteString(w, jstr(rs, "body"))
+					w.Write(c10Body(rs))
 				}))
 				w := httptest.NewRecorder()
 				hnd.ServeHTTP(w, req2)
 				out["mw"] = "done"
+			})
+		}
+	}
+	// the library's other middleware: ValidationHandler (loads the document from a file, legacy router, default
+	// error encoder = DefaultErrorEncoder, which writes err.Error())
+	if jbool(om, "vhandler") {
+		if req3, err := c10Request(rq); err == nil {
+			st.guard("vhandler", func() {
+				dir, err := os.MkdirTemp("", "c10vh")
+				if err != nil {
+					return
+				}
+				defer os.RemoveAll(dir)
+				file := dir + "/doc.json"
+				if os.WriteFile(file, b, 0o600) != nil {
+					return
+				}
+				vh := &openapi3filter.ValidationHandler{File: file, AuthenticationFunc: c10Auth(om),
+					Handler: http.HandlerFunc(func(w http.ResponseWriter, r *http.Request) { w.WriteHeader(204) })}
+				if vh.Load() != nil {
+					out["vh"] = "load-err"
+					return
+				}
+				w := httptest.NewRecorder()
+				if jbool(om, "strict") {
+					vh.Middleware(http.HandlerFunc(func(w http.ResponseWriter, r *http.Request) {})).ServeHTTP(w, req3)
+				} else {
+					vh.ServeHTTP(w, req3)
+				}
+				out["vh"] = "done"
 			})
 		}
 	}
@@ -570,6 +788,15 @@ func c10Bad(m map[string]any) (bool, string) {
 }
 
 func cmpC10(c hx.Case, impl any, reply map[string]any) hx.Verdict {
+	v := cmpC10x(c, impl, reply)
+	if d := os.Getenv("C10_DEBUG"); d == "all" || (d != "" && !v.IM) {
+		b, _ := json.Marshal(map[string]any{"case": c, "impl": impl, "model": reply["model"], "excl": reply["excl"], "im": v.IM, "is": v.IS})
+		fmt.Fprintln(os.Stderr, "C10CASE "+string(b))
+	}
+	return v
+}
+
+func cmpC10x(c hx.Case, impl any, reply map[string]any) hx.Verdict {
 	im, _ := impl.(map[string]any)
 	model, _ := reply["model"].(map[string]any)
 	bad, why := c10Bad(im)
@@ -598,6 +825,11 @@ func cmpC10(c hx.Case, impl any, reply map[string]any) hx.Verdict {
 			v.Detail = "schema case did not reach the validator: " + k
 			return v
 		}
+		if agree, ok := model["cyc_agree"].(bool); ok && !agree {
+			v.IM = false
+			v.Detail += " rank certificate and cycle search disagree on this environment"
+			return v
+		}
 		switch jstr(model, "res") {
 		case "diverge":
 			v.IM = bad
@@ -614,12 +846,31 @@ func cmpC10(c hx.Case, impl any, reply map[string]any) hx.Verdict {
 		if k == "invalid-doc" || k == "bad-request-value" {
 			return hx.Verdict{IM: true, IS: true}
 		}
-		mp := jbool(model, "panic")
-		v.IM = bad == mp
-		if bad && mp {
-			// the defect must be the recorded one: the crash the model predicts, not some panic
+		// the model's statement about one concrete exchange is a set of allowed outcomes (the decoders' answers are
+		// open in it): normal return always; a crash (unbounded recursion) only with may_crash; a panic while an
+		// error's text is produced only with may_unprintable. Anything else the implementation does disagrees.
+		v.IM = true
+		if bad {
 			_, isPanic := im["panic"]
-			v.IM = !isPanic && jbool(model, "crash")
+			switch {
+			case !isPanic:
+				// crash or hang: the recorded unbounded recursion (stack overflow) or the recorded unbounded
+				// allocation (memory watchdog / no return within the time limit)
+				crash := jstr(im, "crash")
+				switch {
+				case strings.Contains(crash, "memory watchdog"):
+					v.IM = jbool(model, "may_exhaust")
+				case crash != "":
+					v.IM = jbool(model, "may_crash")
+				default: // hang
+					v.IM = jbool(model, "may_crash") || jbool(model, "may_exhaust")
+				}
+			default:
+				v.IM = c10PanicsAllowed(im, jbool(model, "may_unprintable"), jbool(model, "may_copy_panic"))
+			}
+			if !v.IM {
+				v.Detail += " (not an outcome the model allows for this input)"
+			}
 		}
 		if mr, ok := model["route"].(string); ok && !bad {
 			ir := jstr(im, "route")
@@ -628,11 +879,32 @@ func cmpC10(c hx.Case, impl any, reply map[string]any) hx.Verdict {
 				v.Detail += fmt.Sprintf(" legacy FindRoute: impl %q, model %q", ir, mr)
 			}
 		}
-		if bad != mp && v.Detail == "" {
-			v.Detail = fmt.Sprintf("model predicts panic=%v, implementation returned normally", mp)
-		}
 	}
 	return v
+}
+
+// every recorded panic is one of the recorded defects, and one the model allows for this input:
+//   F-C10-6 the JSON encoder's error re-raised by SchemaError.Error while the text of an error (or its encoding for
+//           the client) is produced;
+//   F-C10-7 reflect's panic inside deepcopy.Copy called by visitXOFOperations.
+func c10PanicsAllowed(im map[string]any, unprintable, copyPanic bool) bool {
+	l := jlist(im["panics"])
+	if len(l) == 0 {
+		return false
+	}
+	for _, x := range l {
+		m, _ := x.(map[string]any)
+		stage, msg, site := jstr(m, "stage"), jstr(m, "msg"), jstr(m, "site")
+		switch {
+		case unprintable && strings.HasPrefix(msg, "json: unsupported ") && strings.Contains(site, "SchemaError).Error") &&
+			(stage == "errtext" || stage == "encode" || stage == "resp-errtext" || stage == "resp-convert" || stage == "middleware" || stage == "vhandler"):
+		case copyPanic && strings.HasPrefix(msg, "reflect: call of reflect.Value.") && strings.Contains(site, "visitXOFOperations") &&
+			(stage == "request" || stage == "response" || stage == "middleware" || stage == "vhandler"):
+		default:
+			return false
+		}
+	}
+	return true
 }
 
 // ------------------------------------------------------------------ generate
@@ -670,7 +942,7 @@ func genC10(ctx *hx.Ctx, emit func(hx.Case)) {
 		}
 	}
 	// ---- schema fragment: exhaustive small environments
-	shapes := c10SchemaShapes(2)
+	shapes := c10SchemaShapes(2, ctx.Thorough())
 	vals := []any{1, []any{[]any{2}, 3}}
 	if ctx.Thorough() {
 		vals = []any{1, []any{}, []any{1}, []any{[]any{2}, 3}}
@@ -717,7 +989,7 @@ func c10URLMutations(s string) []string {
 	return out
 }
 
-func c10SchemaShapes(nDefs int) []any {
+func c10SchemaShapes(nDefs int, thorough bool) []any {
 	leafs := []any{map[string]any{"leaf": true}, map[string]any{"leaf": false}, map[string]any{"ref": 0}}
 	var out []any
 	// node(allOf ⊆ leafs (≤2), items ∈ none ∪ leafs)
@@ -740,6 +1012,28 @@ func c10SchemaShapes(nDefs int) []any {
 				al = []any{}
 			}
 			out = append(out, map[string]any{"own": false, "allOf": al, "items": it}, map[string]any{"own": true, "allOf": al, "items": it})
+		}
+	}
+	// second family: the other unguarded positions (not, anyOf with its first-success break) against allOf / items
+	ref0 := map[string]any{"ref": 0}
+	lt, lf := map[string]any{"leaf": true}, map[string]any{"leaf": false}
+	nots := []any{nil, lt, lf, ref0}
+	anys := [][]any{{}, {ref0}, {lt, ref0}, {lf, ref0}, {ref0, lt}}
+	for _, nt := range nots {
+		for _, ay := range anys {
+			if nt == nil && len(ay) == 0 {
+				continue // first family
+			}
+			for _, al := range [][]any{{}, {ref0}} {
+				for _, it := range []any{nil, ref0} {
+					for _, own := range []bool{false, true} {
+						if own && !thorough {
+							continue // `own` only matters to IsEmpty, which is not evaluated on schemas with sub-schemas
+						}
+						out = append(out, map[string]any{"own": own, "not": nt, "anyOf": ay, "allOf": al, "items": it})
+					}
+				}
+			}
 		}
 	}
 	return out
@@ -767,7 +1061,18 @@ func c10RandSchema(r *hx.Rng, nDefs, depth int, top bool) map[string]any {
 	if r.Chance(60) {
 		items = c10RandSchema(r, nDefs, depth-1, false)
 	}
-	return map[string]any{"own": r.Chance(60), "allOf": all, "items": items}
+	out := map[string]any{"own": r.Chance(60), "allOf": all, "items": items}
+	if r.Chance(30) {
+		alts := []any{}
+		for i := 1 + r.Intn(2); i > 0; i-- {
+			alts = append(alts, c10RandSchema(r, nDefs, depth-1, false))
+		}
+		out["anyOf"] = alts
+	}
+	if r.Chance(20) {
+		out["not"] = c10RandSchema(r, nDefs, depth-1, false)
+	}
+	return out
 }
 
 func c10RandValue(r *hx.Rng, depth int) any {
@@ -892,7 +1197,8 @@ func c10Param(r *hx.Rng, name, in string) map[string]any {
 
 func c10Content(r *hx.Rng) map[string]any {
 	cts := []string{"application/json", "application/x-www-form-urlencoded", "multipart/form-data", "text/plain", "application/octet-stream",
-		"*/*", "application/*", "application/problem+json", "text/csv", "application/yaml", "application/zip", "application/json; charset=utf-8"}
+		"*/*", "application/*", "application/problem+json", "text/csv", "application/yaml", "application/zip", "application/json; charset=utf-8",
+		"application/x-yaml", "application/yaml", "application/vnd.api+json"}
 	out := map[string]any{}
 	for i := 1 + r.Intn(2); i > 0; i-- {
 		mt := map[string]any{}
@@ -901,8 +1207,8 @@ func c10Content(r *hx.Rng) map[string]any {
 		}
 		ct := hx.Pick(r, cts)
 		if (ct == "multipart/form-data" || ct == "application/x-www-form-urlencoded") && r.Chance(40) {
-			mt["encoding"] = map[string]any{"a": map[string]any{"contentType": "application/json", "style": "form", "explode": r.Bool()},
-				"j": map[string]any{"contentType": "application/json"}}
+			mt["encoding"] = map[string]any{"a": map[string]any{"contentType": hx.Pick(r, []string{"application/json", "application/json", "application/yaml", "text/csv"}), "style": "form", "explode": r.Bool()},
+				"j": map[string]any{"contentType": hx.Pick(r, []string{"application/json", "application/json", "application/x-yaml"})}}
 		}
 		out[ct] = mt
 	}
@@ -991,6 +1297,15 @@ func c10Doc(r *hx.Rng) (map[string]any, []string) {
 			`{"type":"object","properties":{"next":{"nullable":true,"allOf":[{"$ref":"#/components/schemas/Loop"}]}}}`}))
 	}
 	doc["components"] = map[string]any{"schemas": comps}
+	if r.Chance(12) {
+		// security requirements: declared or not, global (operation-level ones are added in c10Operation's caller)
+		if r.Chance(75) {
+			doc["components"].(map[string]any)["securitySchemes"] = map[string]any{
+				"k": map[string]any{"type": "apiKey", "in": "header", "name": "X-K"},
+				"b": map[string]any{"type": "http", "scheme": "bearer"}}
+		}
+		doc["security"] = c10J(hx.Pick(r, []string{`[{"k":[]}]`, `[{"k":[],"b":["s"]}]`, `[{}]`, `[{"k":[]},{"b":[]}]`, `[]`}))
+	}
 	if r.Chance(55) {
 		var servers []any
 		for i := 1 + r.Intn(2); i > 0; i-- {
@@ -1053,13 +1368,21 @@ var c10Bodies = []string{"", "{", "{}", "1", "0", "null", "[1,2]", `{"a":1}`, `{
 	"--b\r\nContent-Disposition: form-data; name=\"j\"\r\nContent-Type: application/json\r\n\r\n{bad\r\n--b--\r\n",
 	"--b\r\nContent-Disposition: form-data; name=\"a\"\r\nContent-Type: application/json\r\n\r\n{bad\r\n--b--\r\n",
 	"--b\r\nContent-Disposition: form-data; name=\"f\"; filename=\"x\"\r\nContent-Type: text/plain\r\n\r\nxx\r\n--b\r\nContent-Disposition: form-data; name=\"zz\"\r\n\r\n1\r\n--b--\r\n",
-	"--b\r\nContent-Disposition: form-data\r\n\r\n1\r\n--b--\r\n", "--b\r\n\r\n", "--b--", "a: 1\nb: [1, 2]\n", "a,b\n1,2\n", "PK\x03\x04"}
+	"--b\r\nContent-Disposition: form-data\r\n\r\n1\r\n--b--\r\n", "--b\r\n\r\n", "--b--", "a: 1\nb: [1, 2]\n", "a,b\n1,2\n", "PK\x03\x04",
+	"--b\r\nContent-Disposition: form-data; name=\"a\"\r\nContent-Type: application/yaml\r\n\r\n{1: x}\r\n--b--\r\n",
+	"--b\r\nContent-Disposition: form-data; name=\"j\"\r\nContent-Type: application/x-yaml\r\n\r\nk: [.nan]\r\n--b--\r\n",
+	"--b\r\nContent-Disposition: form-data; name=\"a\"\r\n\r\nNaN\r\n--b\r\nContent-Disposition: form-data; name=\"a\"\r\n\r\n2\r\n--b--\r\n",
+	"a=NaN&b=Inf", "a=1&a=NaN", "a,\"b\n1,2\n", "a,b\r\n\"1\"\"\",2\r\n", "\"", "a: &x [*x]\n", "? [1]\n: 2\n", "a: !!binary AAA=\n", "- 2001-12-14\n- !!float 1\n", "<<: {a: 1}\nb: 2\n",
+	"a: &a [1,2]\nb: [*a,*a,*a,*a,*a,*a,*a,*a,*a]\n"}
 var c10CTs = []string{"", "application/json", "application/json; charset=utf-8", "APPLICATION/JSON", "application/x-www-form-urlencoded", "multipart/form-data; boundary=b",
 	"multipart/form-data", "text/plain", "application/octet-stream", "a/b/c", ";;;", "application/problem+json", "text/csv", "application/yaml", "application/zip",
-	"application/json;", "*/*", "application/*", "multipart/form-data; boundary=", "x"}
+	"application/json;", "*/*", "application/*", "multipart/form-data; boundary=", "x", "application/x-yaml", "application/yaml; charset=utf-8", "text/csv; header=present"}
 var c10Queries = []string{"", "q=1", "q=x", "q=1&q=2", "q", "q=", "q=1,2", "q[a]=1", "q[a]=1&q[a][b]=2", "q[b]=1&q[b][c]=2", "p[b]=1&p[b][c]=2", "q=%zz", "q=a|b", "q=a%20b",
-	"q=[1,2]", "q={\"a\":1}", "q={", "p=1&q=2", "q=1&q=x", "&&&", "q=null", "q=true", "q[]=1", "q[a][b][c]=1", "q.a=1", "q=9223372036854775808", "q=1e400", "q=b,c"}
-var c10Values = []string{"5", "x", "", "a/b", "%2F", ".5", "1,2", ".1.2", ";x=1", "a=1,b=2", "true", "{x}"}
+	"q=[1,2]", "q={\"a\":1}", "q={", "p=1&q=2", "q=1&q=x", "&&&", "q=null", "q=true", "q[]=1", "q[a][b][c]=1", "q.a=1", "q=9223372036854775808", "q=1e400", "q=b,c",
+	"q=NaN", "q=NaN&q=1", "q=1,Inf", "q[a]=nan", "p=-Infinity&q=2", "q=inf|1", "q=1%20NaN", "q[b]=NaN&q[c]=1",
+	"q[b][0]=1&q[b][1]=2", "q[b][3]=1", "q[b][300]=1", "q[b][-1]=1", "q[b][x]=1", "q[b][0][0]=1", "p[b][2]=7&p[b][0]=1", "q[0]=1&q[1]=2", "q[b][999]=x"}
+var c10Values = []string{"5", "x", "", "a/b", "%2F", ".5", "1,2", ".1.2", ";x=1", "a=1,b=2", "true", "{x}",
+	"NaN", "1,NaN", "Inf,2", "-inf", "+Infinity", "nan,nan", "1e999", "0x1p-2", "1_0"}
 
 func c10RandTraffic(r *hx.Rng) hx.Case {
 	doc, tpls := c10Doc(r)
@@ -1140,7 +1463,7 @@ func c10RandTraffic(r *hx.Rng) hx.Case {
 		headers = append(headers, []any{"X-H", "second"})
 	}
 	if r.Chance(30) {
-		headers = append(headers, []any{"Cookie", hx.Pick(r, []string{"c=1", "c=x; q=2", "c", "=", "c=\"a b\"", "c=1; c=2", ";;", "c={\"a\":1}"})})
+		headers = append(headers, []any{"Cookie", hx.Pick(r, []string{"c=1", "c=x; q=2", "c", "=", "c=\"a b\"", "c=1; c=2", ";;", "c={\"a\":1}", "c=NaN", "c=1,Inf"})})
 	}
 	req := map[string]any{"method": method, "scheme": scheme, "host": host, "path": full, "rawURL": u.String(), "query": hx.Pick(r, c10Queries),
 		"headers": headers, "ct": hx.Pick(r, c10CTs), "body": hx.Pick(r, c10Bodies)}
@@ -1158,8 +1481,186 @@ func c10RandTraffic(r *hx.Rng) hx.Case {
 	}
 	resp := map[string]any{"status": hx.Pick(r, []int{200, 200, 201, 404, 500, 0, 99, 600, -1, 304, 1000}), "headers": rh, "ct": hx.Pick(r, c10CTs), "body": hx.Pick(r, c10Bodies)}
 	opts := map[string]any{"multi": r.Bool(), "exReqBody": r.Chance(10), "exQuery": r.Chance(10), "exRespBody": r.Chance(10), "inclStatus": r.Chance(30),
-		"skipDefaults": r.Chance(20), "exRO": r.Chance(10), "exWO": r.Chance(10), "middleware": r.Chance(30), "strict": r.Bool()}
+		"skipDefaults": r.Chance(20), "exRO": r.Chance(10), "exWO": r.Chance(10), "middleware": r.Chance(30), "strict": r.Bool(),
+		"vhandler": r.Chance(15), "auth": hx.Pick(r, []string{"", "noop", "noop", "deny"})}
+	// focused exchanges: a body decoder other than JSON gets a body it can decode, under a schema that walks it
+	if ops := c10DeclaredOps(doc, tpl); len(ops) > 0 {
+		switch k := r.Intn(100); {
+		case k < 14: // YAML: mappings with non-string keys, non-finite floats, at depth
+			m := hx.Pick(r, ops)
+			op := doc["paths"].(map[string]any)[tpl].(map[string]any)[m].(map[string]any)
+			yct := hx.Pick(r, []string{"application/yaml", "application/x-yaml"})
+			op["requestBody"] = map[string]any{"content": map[string]any{yct: map[string]any{"schema": c10WalkSchema(r)}}}
+			req["method"] = strings.ToUpper(m)
+			req["ct"] = yct
+			req["body"] = ""
+			req["ybody"] = c10YamlTree(r, 3)
+			if r.Chance(60) {
+				rps := op["responses"].(map[string]any)
+				codes := make([]string, 0, len(rps))
+				for code := range rps {
+					codes = append(codes, code)
+				}
+				sort.Strings(codes) // every random choice in a fixed order
+				for _, code := range codes {
+					rps[code].(map[string]any)["content"] = map[string]any{yct: map[string]any{"schema": c10WalkSchema(r)}}
+				}
+				resp["ct"] = yct
+				resp["body"] = ""
+				resp["ybody"] = c10YamlTree(r, 3)
+				resp["status"] = 200
+			}
+		case k < 18: // zip archive through the (user-registered) ZipFileBodyDecoder
+			m := hx.Pick(r, ops)
+			op := doc["paths"].(map[string]any)[tpl].(map[string]any)[m].(map[string]any)
+			op["requestBody"] = map[string]any{"content": map[string]any{"application/zip": map[string]any{"schema": c10J(hx.Pick(r, []string{
+				`{"type":"string"}`, `{"type":"string","maxLength":3}`, `{"type":"string","format":"binary"}`, `{"type":"string","pattern":"^a"}`, `{}`}))}}}
+			req["method"] = strings.ToUpper(m)
+			req["ct"] = "application/zip"
+			req["body"] = ""
+			req["body_b64"] = base64.StdEncoding.EncodeToString(c10ZipBytes(r))
+		case k < 25: // deepObject query parameter with array / nested properties, addressed by bracketed indexes
+			m := hx.Pick(r, ops)
+			op := doc["paths"].(map[string]any)[tpl].(map[string]any)[m].(map[string]any)
+			name := hx.Pick(r, []string{"p", "q"})
+			prm := map[string]any{"name": name, "in": "query", "style": "deepObject", "explode": true, "schema": c10J(hx.Pick(r, []string{
+				`{"type":"object","properties":{"b":{"type":"array","items":{"type":"integer"}}}}`,
+				`{"type":"object","properties":{"b":{"type":"array","items":{"type":"integer","nullable":true}},"a":{"type":"integer"}}}`,
+				`{"type":"object","properties":{"b":{"type":"array","items":{"type":"array","items":{"type":"string"}}}}}`,
+				`{"type":"object","additionalProperties":{"type":"array","items":{"type":"number"}}}`,
+				`{"type":"object","properties":{"b":{"type":"array","items":{"type":"object","properties":{"c":{"type":"integer"}}}}}}`,
+				`{"type":"object","properties":{"b":{"oneOf":[{"type":"array","items":{"type":"integer"}},{"type":"string"}]}}}`}))}
+			var ps []any
+			for _, x := range jlist(op["parameters"]) {
+				if pm, ok := x.(map[string]any); ok && pm["in"] == "query" && pm["name"] == name {
+					continue
+				}
+				ps = append(ps, x)
+			}
+			op["parameters"] = append(ps, prm)
+			req["method"] = strings.ToUpper(m)
+			idx := hx.Pick(r, []string{"0", "1", "2", "7", "00", "+1", "-1", "x", "", "300", "64", "1e3", "0x10", " 1"})
+			if r.Chance(2) {
+				idx = hx.Pick(r, []string{"2000000000", "9223372036854775807", "+4000000000", "100000000000"}) // F-C10-8 (runs in a child)
+			}
+			q := name + "[b][" + idx + "]=" + hx.Pick(r, []string{"1", "x", "", "NaN"})
+			switch r.Intn(4) {
+			case 0:
+				q += "&" + name + "[b][0]=2"
+			case 1:
+				q += "&" + name + "[b][" + idx + "][0]=3"
+			case 2:
+				q += "&" + name + "[a]=1&" + name + "[b][1][c]=4"
+			}
+			req["query"] = q
+		}
+	}
 	return hx.Case{"op": "traffic", "doc": doc, "router": hx.Pick(r, []string{"legacy", "gorilla"}), "req": req, "resp": resp, "opts": opts}
+}
+
+func c10DeclaredOps(doc map[string]any, tpl string) []string {
+	item, _ := doc["paths"].(map[string]any)[tpl].(map[string]any)
+	var ms []string
+	for _, m := range c10OpMethods {
+		if _, ok := item[m].(map[string]any); ok {
+			ms = append(ms, m)
+		}
+	}
+	return ms
+}
+
+// schemas under which the validator walks into nested mappings and sequences
+var c10WalkPool = []string{
+	`{}`, `{"type":"object"}`, `{"type":"string"}`, `{"type":"object","additionalProperties":{"type":"object"}}`,
+	`{"type":"object","additionalProperties":{}}`, `{"type":"object","additionalProperties":{"type":"integer"}}`,
+	`{"type":"array","items":{"type":"object"}}`, `{"type":"array","items":{}}`, `{"type":"array","items":{"type":"number"},"maxItems":1}`,
+	`{"type":"object","properties":{"a":{"type":"object"},"b":{"type":"array","items":{"type":"object","additionalProperties":{"type":"object"}}}}}`,
+	`{"type":"object","properties":{"a":{"type":"object","properties":{"k":{"type":"object"}}}},"additionalProperties":false}`,
+	`{"oneOf":[{"type":"object"},{"type":"array","items":{"type":"object"}}]}`, `{"anyOf":[{"type":"string"},{"type":"object","additionalProperties":{"type":"object"}}]}`,
+	`{"allOf":[{"type":"object"},{"additionalProperties":{"type":"object"}}]}`, `{"not":{"type":"object"}}`, `{"enum":[{"a":1},[1]]}`,
+	`{"type":"object","additionalProperties":{"type":"number"},"minProperties":3}`, `{"type":"array","uniqueItems":true,"items":{}}`,
+	`{"$ref":"#/components/schemas/Tree"}`, `{"$ref":"#/components/schemas/Cat"}`,
+}
+
+func c10WalkSchema(r *hx.Rng) any {
+	if r.Chance(25) {
+		return c10Schema(r)
+	}
+	return c10J(hx.Pick(r, c10WalkPool))
+}
+
+func c10YamlScalar(r *hx.Rng) map[string]any {
+	switch r.Intn(8) {
+	case 0:
+		return map[string]any{"i": r.Intn(5)}
+	case 1:
+		return map[string]any{"b": r.Bool()}
+	case 2:
+		return map[string]any{"f": hx.Pick(r, []string{"nan", "inf", "-inf", "1.5", "0.0"})}
+	case 3:
+		return map[string]any{"n": true}
+	}
+	return map[string]any{"s": hx.Pick(r, []string{"a", "b", "k", "v", "x", "", "1", "true", "null", "a b", "kids"})}
+}
+
+func c10YamlTree(r *hx.Rng, depth int) map[string]any {
+	if depth <= 0 || r.Chance(25) {
+		return c10YamlScalar(r)
+	}
+	if r.Chance(30) {
+		l := []any{}
+		for i := r.Intn(3); i > 0; i-- {
+			l = append(l, c10YamlTree(r, depth-1))
+		}
+		return map[string]any{"l": l}
+	}
+	m := []any{}
+	seen := map[string]bool{}
+	for i := 1 + r.Intn(3); i > 0; i-- {
+		var k map[string]any
+		if r.Chance(70) {
+			k = map[string]any{"s": hx.Pick(r, []string{"a", "b", "k", "v", "kids", "n"})}
+		} else {
+			k = c10YamlScalar(r)
+		}
+		ks := c10Yaml(k)
+		if seen[ks] {
+			continue // duplicate keys are a YAML syntax error
+		}
+		seen[ks] = true
+		m = append(m, []any{k, c10YamlTree(r, depth-1)})
+	}
+	return map[string]any{"m": m}
+}
+
+func c10ZipBytes(r *hx.Rng) []byte {
+	var buf bytes.Buffer
+	zw := zip.NewWriter(&buf)
+	for i := r.Intn(3); i > 0; i-- {
+		method := zip.Store
+		if r.Bool() {
+			method = zip.Deflate
+		}
+		w, err := zw.CreateHeader(&zip.FileHeader{Name: hx.Pick(r, []string{"a.txt", "d/", "../x", ""}), Method: method})
+		if err == nil {
+			w.Write([]byte(strings.Repeat(hx.Pick(r, []string{"a", "xyz", "", "NaN"}), r.Intn(300))))
+		}
+	}
+	zw.Close()
+	b := buf.Bytes()
+	switch r.Intn(6) {
+	case 0:
+		return b[:len(b)/2] // truncated
+	case 1:
+		if len(b) > 30 {
+			b[len(b)-12] ^= 0xff // corrupt the end-of-central-directory record
+		}
+	case 2:
+		if len(b) > 40 {
+			b[20] ^= 0x5a // corrupt the first local header / data
+		}
+	}
+	return b
 }
 
 // ------------------------------------------------------------------ shrink
